@@ -209,6 +209,17 @@ class Extractor {
   }
 
   // ------------------------------------------------------------------ records
+  // does the record (or one of its bases) declare non-static data members?
+  // (a vptr alone does not count: there is nothing for a move to transfer)
+  bool hasDataMembers(const CXXRecordDecl* RD, int Depth = 0) {
+    if (!RD || Depth > 8) return false;
+    if (!RD->field_empty()) return true;
+    for (auto& B : RD->bases())
+      if (auto* BR = B.getType()->getAsCXXRecordDecl())
+        if (BR->getDefinition() && hasDataMembers(BR->getDefinition(), Depth + 1))
+          return true;
+    return false;
+  }
   void noteRecord(const CXXRecordDecl* RD) {
     if (!RD) return;
     RD = RD->getDefinition();
@@ -243,7 +254,7 @@ class Extractor {
       BO["type"] = typeStr(B.getType());
       bool HasData = false;
       if (auto* BR = B.getType()->getAsCXXRecordDecl())
-        if (BR->getDefinition()) HasData = !BR->getDefinition()->isEmpty();
+        if (BR->getDefinition()) HasData = hasDataMembers(BR->getDefinition());
       BO["has_data"] = HasData;
       Bs.push_back(std::move(BO));
     }
